@@ -95,6 +95,23 @@ var vhConcreteContents = []string{
 	"\x00\x00\x00",
 }
 
+// a[3] = 5: a file larger than the customary read buffers (4, 8, 16, 32 and 64 KiB) with a CR LF pair lying across
+// each of those offsets and a lone CR in front of the last one - a reader that works through the file in pieces
+// must give the digest of the whole content, normalised as a whole
+func vhBoundaryContent() string {
+	b := make([]byte, 65536+8)
+	for i := range b {
+		b[i] = 'a'
+	}
+	for _, off := range []int{4096, 8192, 16384, 32768, 65536} {
+		b[off-1], b[off] = '\r', '\n'
+	}
+	b[65536-3] = '\r'
+	return string(b)
+}
+
+func init() { vhConcreteContents = append(vhConcreteContents, vhBoundaryContent()) }
+
 func vhC13Artifact(a []int, twin bool) {
 	vhFileContent = vBytes("content", a[0])
 	if len(a) > 3 && a[3] > 0 {
